@@ -30,6 +30,7 @@ def dispatch (line : String) : String :=
   | "npr" :: args => C06.npr args
   | "readrange" :: args => C06.readrange args
   | "inject" :: args => C06.inject args
+  | "carets" :: args => C06.carets args
   | "pipeline" :: args => C11.pipelineOp args
   | "monitor" :: args => C11.monitorOp args
   | "schedmon" :: args => C11.schedmonOp args
